@@ -15,7 +15,7 @@ echo "== 1. demo WITH the change (must fail)"
 echo "== 2. suite WITH the change, demo excluded (must pass)"
 (cd $WT && mv $DEMO /tmp/seed_demo_hold.go && go build ./... && go test -vet=off -count=1 ./... 2>&1 | grep -v "^ok\|no test files" | head -10; echo "suite-exit-marker"; mv /tmp/seed_demo_hold.go $DEMO)
 echo "== 3. demo WITHOUT the change (must pass)"
-(cd $WT && git stash push -q -- $(git diff HEAD --name-only --diff-filter=M | grep -v _test.go) && go test -vet=off -count=1 $PKG 2>&1 | tail -3; git stash pop -q)
+(cd $WT && git apply -R $D/patch.diff && go test -vet=off -count=1 $PKG 2>&1 | tail -3; git apply $D/patch.diff)
 echo "== 4. property check against the change applied to /repo"
 if [ -n "$(git -C /repo status --porcelain)" ]; then echo "/repo not clean, skipping"; exit 3; fi
 git -C /repo apply $D/patch.diff && (cd /verif && ./check $PROP quick; echo "check-exit=$?") ; git -C /repo checkout -- . 
